@@ -133,6 +133,8 @@ def signature(trace, diag):
         what = "setup-" + str(bad.get("cfg", {}).get("kind"))
     if diag.get("violated"):
         return "engine-trace:%s:after-%s:%s" % (what, prev, diag["violated"])
+    if diag.get("tlc_error"):
+        return "engine-trace:%s:after-%s:specification-cannot-evaluate" % (what, prev)
     return "engine-trace:%s:after-%s" % (what, prev)
 
 
